@@ -15,7 +15,7 @@ CLAIMED = {
             SCRIPT_NOTE,
             "DESIGN.md 4/C01"),
     "C02": ("Coq theorems (little-endian, two's-complement, NUL stripping, hex, response completeness) + correspondence + expectation judge on generated device values",
-            "C02_driver_roundtrip (through the C04 refinement): an idle driver whose first attempt is answered by optional noise plus the frame a conforming device sends for (addr, v), cut into data events in any way, returns exactly v after one frame. Proved for all values: le_uint/le_int invert the wire encoding for widths 1,2,4,8 over the full range (bit 63 included), other widths are an error, strip_nul removes exactly the trailing NULs, every valid response (any hex case) is accepted with exactly its payload. Driver-level round trip is checked on exhaustive 1-byte (quick) / 2-byte (thorough) values, boundary and random 4/8-byte values, strings up to 64 bytes, device ids and call sequences.",
+            "C02_sequence: for ANY history of typed reads (raw/unsigned/signed/string, idle or busy line, any addresses) against a device that answers every command with colon-free noise plus the conforming frame in any chunking, the k-th call returns the decoding of the k-th payload after exactly one command frame and leaves the driver drained (stated on run_calls, the function the harness executes). C02_driver_roundtrip (through the C04 refinement): an idle driver whose first attempt is answered by optional noise plus the frame a conforming device sends for (addr, v), cut into data events in any way, returns exactly v after one frame. Proved for all values: le_uint/le_int invert the wire encoding for widths 1,2,4,8 over the full range (bit 63 included), other widths are an error, strip_nul removes exactly the trailing NULs, every valid response (any hex case) is accepted with exactly its payload. Driver-level round trip is checked on exhaustive 1-byte (quick) / 2-byte (thorough) values, boundary and random 4/8-byte values, strings up to 64 bytes, device ids and call sequences.",
             SCRIPT_NOTE + "Partial: aliasing of returned slices is exercised by the harness only.",
             "DESIGN.md 4/C02"),
     "C03": ("Coq theorem over the frame model (all nibbles, all addresses, all payloads) + exhaustive model/code correspondence on all 7x65536 frames",
@@ -26,16 +26,16 @@ CLAIMED = {
             "C04_refines: for every logger configuration, address, idle flag and every state with a clean script (data cut into events in any way, read timeouts/errors anywhere, any stale bytes; no write faults, no empty reads) the concrete model returns exactly the abstract line machine's result, writes exactly as many frames and leaves exactly its left-over. On the abstract machine: C04_success (k-1 failing attempts — noise without ':', async frames, partial frame, silence, one invalid/foreign/short line — then a valid matching response at attempt k <= 8: value after exactly k frames), C04_gives_up (exactly eight frames), C04_noise_fails, C04_idle_flush (idle: result independent of stale bytes). For arbitrary scripts incl. faults: C04_never_more_than_8, C04_frames_written, C04_value_at_once. The implementation is compared with concrete model and abstract machine on all reaction sequences up to length 3/4 and random ones up to 9, stale/idle histories, first-call stale data.",
             SCRIPT_NOTE + "The refinement excludes empty reads and no-progress ports (covered by C06's bounds and the judge).",
             "DESIGN.md 4/C04"),
-    "C05": ("Coq theorems (flag -> typed error, loop ends at once, one Write per exchange) + correspondence + expectation judge",
+    "C05": ("Coq theorems (flag -> typed error, loop ends at once, one Write per exchange, register-API wrapping) + correspondence + expectation judges at the driver and at the register API",
             "Proved: a Get response for the requested address with flag 1, 2 or 4 (any trailing payload) is classified as ErrUnknownId / ErrorNotSupported / ErrorParameterError, the retry loop returns it in the state reached after that single exchange, and an exchange performs exactly one Write. Checked on the implementation for all accessors, boundary and random addresses, 0..8 trailing bytes, async prefixes and every flag byte.",
-            SCRIPT_NOTE, "DESIGN.md 4/C05"),
+            SCRIPT_NOTE + "Register API: C05_api_wrapped is proved for every register; every register of every distinct product list is read with flags 1/2/4 and trailing payloads through Read*Register and judged (class, wrapped with the name, total frames). ", "DESIGN.md 4/C05"),
     "C06": ("Coq theorems (no call panics for any state/script/fault schedule; at most eight writes; one write per exchange) + correspondence with a fault injected at every I/O index + read budget/watchdog",
             "C06_total: for every logger configuration, driver state, device script and fault schedule every driver call returns a value or an error: it neither panics nor runs out of the supplied fuel (the modelled bufio loop, async-skipping loop and retry loop terminate; measure-based proof); no driver call panics; response parsing is total; at most eight Write calls per register access. The implementation is run with a write fault at every write index, read error/timeout/empty read at every byte position, every prefix of every valid answer, every response nibble with short payloads, random streams; reads after end of data are bounded (1 per attempt, 100 in no-progress mode) and a read budget plus a watchdog turn a hang into a reported violation.",
             SCRIPT_NOTE + "Blocking of a real port is runtime behaviour: the theorems bound the I/O calls of the model, the harness bounds those of the code.",
             "DESIGN.md 4/C06"),
-    "C18": ("Coq theorem: simulation between any two logger configurations for every call and history + implementation run under all four configurations + I/O log replay + file logger on real files",
+    "C18": ("Coq theorems: simulation between any two logger configurations for every call and history; one line per typed call; replay of the logged pair through a lookup port (via the C04 refinement) + implementation run under all four configurations + I/O log replay + file logger on real files",
             "Proved: for any two logger configurations and states agreeing on reader and port, every call (and every history) returns the same result and leaves the same reader/port state; without an I/O logger no line is emitted. Every generated case is run on the real driver under all four configurations and the observations must be identical; the I/O lines (unquoted) must equal the model's (tx = frames written, rx = bytes consumed), and each typed call completed in one exchange is replayed through a lookup port. The file logger is run on real files (pre-existing content, lines longer than the 4096-byte buffer).",
-            SCRIPT_NOTE + "Partial: debug-log text is not modelled.", "DESIGN.md 4/C18"),
+            SCRIPT_NOTE + "C18_one_line, C18_replay (typed Get completed in one exchange: the line is (command frame, bytes consumed) and a fresh driver on the lookup port returns the same result) and C18_replay_commands (Ping/GetDeviceId, failing exchanges included) are proved for every state and script. Partial: debug-log text is not modelled; the file logger is os/bufio behaviour, exercised on real files only.", "DESIGN.md 4/C18"),
 }
 
 
@@ -63,10 +63,10 @@ API_NOTE = ("Trusted: Coq kernel, T-obs dumper, extraction, OCaml driver, Go har
 CLAIMED.update({
     "C09": ("Coq theorems (readers = decode_register of the obtained payload for every register/state/script; exact rational scaling; enum and field-list lemmas over the regenerated tables) + correspondence on every register of every product list",
             "C09_readers is proved for every register, driver state, script and fault schedule; C09_number states the exact value raw/factor+offset; C09_enum (every integer), C09_fieldlist (no documented bit lost to the constructor width), C09_wrapped (errors stay matchable), C09_all_registers (all 65536 ids: non-zero factors, decoders present). The implementation is run on every register of every distinct product list with boundary/random raw values, unsupported widths, NUL/Unicode-space texts, undefined enum codes and device/transport errors.",
-            API_NOTE + "float64 rounding is not modelled (exact rationals, tolerance 1e-9).", "DESIGN.md 4/C09"),
+            API_NOTE + "The float64 result of the number reader is modelled in Flocq binary64 (Api/Float.v), proved finite and correctly rounded (C09_number_f64, C09_number_f64_small; these two theorems depend on the standard-library axioms of Coq's Reals, functional extensionality and excluded middle, named in the evidence) and compared bit for bit with the implementation.", "DESIGN.md 4/C09"),
     "C10": ("Coq theorem by induction over the register sequence (prefix, exactly once, abort state, cancellation points) + correspondence + independent expectation judge",
             "C10_stream is proved for every register sequence, cancellation point, accumulator, driver state, device script and fault schedule: delivered values are a prefix of the plan in order, each once; nothing is read at or after a check point where the context is done; normal end iff everything was delivered; on failure the state is the one the failing read left. C10_plan/C10_no_handler_no_io/C10_io_only_for_read_registers give grouping and I/O only for set handlers. Implementation: all product classes, all 16 handler subsets, failure at every position, cancellation before / in every k-th callback / in the k-th Write, random sub-lists, map variant.",
-            API_NOTE + "A concurrent cancel() is modelled by the number of registers delivered before it becomes visible; goroutine scheduling itself is not modelled.", "DESIGN.md 4/C10"),
+            API_NOTE + "C10_maps: the map-returning variants are modelled in Coq (Api/Maps.v, Go maps as association lists) and proved to hold exactly the delivered values keyed by name; the runner executes that model. A concurrent cancel() is modelled by the number of registers delivered before it becomes visible; goroutine scheduling itself is not modelled.", "DESIGN.md 4/C10"),
     "C11": ("Coq theorems (connect iff both exchanges succeed and the id has a list; supported class via C12 for all ids; frame order) + exhaustive correspondence over all 65536 device ids",
             "C11_iff, C11_supported, C11_order are proved over the model; the model and the real NewRegisterApi are compared on all 65536 device ids on every run (the domain is finite: exact), plus silent/malformed/faulty devices; the judge uses the class specification of C12, not the code's type switch.",
             API_NOTE, "DESIGN.md 4/C11"),
